@@ -36,8 +36,13 @@ type Scenario struct {
 	// Blockchain instance, 1 = new Blockchain on the same database (process killed), 2 = write the
 	// running-filter snapshot first (graceful shutdown), then new Blockchain. Past its end,
 	// RestartMode is used for the first RevertHead of a round and the first fork Store (rotated).
-	RestartPlan   []int
-	RestartMode   int
+	RestartPlan []int
+	RestartMode int
+	// FailedOps: before the first Store of every fork (and before the first RevertHead of every
+	// round) node A is first given an operation that must fail inside the batch — a copy of the
+	// block whose state root is wrong, a Store of a block that does not extend the head — and then
+	// the real one; B never sees the failing operations.
+	FailedOps     bool
 	SmallUniverse bool // state queries over {0x1, 0x2, 0x104, unused} x {slot 3, unused} only
 	LightModel    bool // skip the (8 MB) running-filter family in the model comparison
 	Warm          bool // ask event queries on node A before each revert (fills the filter cache)
@@ -322,6 +327,22 @@ func (n *Node) RestartInPlace(newState, graceful bool) error {
 	}
 	n.BC = lib.NodeOn(n.DB, lib.TestNetwork(), newState)
 	return nil
+}
+
+// StoreWrongRoot offers a copy of the bundle whose new state root is wrong directly to
+// Blockchain.Store (past the sanity check, as a caller with a stale or corrupt state update would):
+// State.Update runs inside the batch and fails at the final root verification.
+func (n *Node) StoreWrongRoot(b *lib.Bundle) (attempted bool, err error) {
+	c := b.Clone()
+	commitments, err := n.BC.SanityCheckNewHeight(c.Block, c.SU, c.Classes)
+	if err != nil {
+		return false, err
+	}
+	wrong := new(felt.Felt).Add(c.SU.NewRoot, lib.F(1))
+	c.SU.NewRoot = wrong
+	c.Block.GlobalStateRoot = wrong
+	err, _, _ = lib.Try(func() error { return n.BC.Store(c.Block, commitments, c.SU, c.Classes) })
+	return true, err
 }
 
 func (n *Node) Store(b *lib.Bundle) error {
